@@ -161,19 +161,31 @@ def kept_tokens(src: str):
             return out
 
 
-def parse_request(ir, toks, rule="file", fuel=2000000, verbose=False):
+def parse_request(ir, toks, rule="file", fuel=2000000, verbose=False, minor=None):
     strs = ir["strings"]
     kws = set(ir["keywords"])
     soft = set(ir["soft_keywords"])
     names = [r["name"] for r in ir["rules"]]
     fields = ["parsev" if verbose else "parse", str(names.index(rule)), str(fuel)]
+    if minor is not None:  # version gates resolved for the effective py_version (3, minor)
+        fields = ["parsegv" if verbose else "parseg", str(minor)] + fields[1:]
     for t in toks:
         sid = strs.get(t.string, len(strs))
         fields.append(f"{t.type.name}:{sid}:{1 if t.string in kws else 0}:{1 if t.string in soft else 0}")
     return " ".join(fields)
 
 
-def impl_parse_observation(src: str, mode="exec", verbose=False):
+def effective_minor(py_version):
+    """The `v` of the model's `gateProg v` for a given `py_version` option: the largest m with (3, m) <= the version the
+    parser actually uses (`min(py_version, sys.version_info)`, or the running version when the option is not given)."""
+    import sys
+
+    eff = min(tuple(py_version), tuple(sys.version_info)) if py_version else tuple(sys.version_info)
+    ms = [m for m in range(0, 40) if (3, m) <= eff]
+    return max(ms) if ms else 0
+
+
+def impl_parse_observation(src: str, mode="exec", verbose=False, py_version=None):
     """What the real parser does, in the vocabulary of the recogniser model."""
     import contextlib
     import io
@@ -200,7 +212,7 @@ def impl_parse_observation(src: str, mode="exec", verbose=False):
             return super().reset(index)
 
     tz = Counting(generate_tokens(io.StringIO(src).readline))
-    p = XonshParser(tz, verbose=verbose)
+    p = XonshParser(tz, verbose=verbose, py_version=tuple(py_version) if py_version else None)
     rule = "file" if mode == "exec" else "eval"
     # first pass only (what decides acceptance), exactly as Parser.parse starts
     p.call_invalid_rules = False
@@ -217,22 +229,28 @@ def impl_parse_observation(src: str, mode="exec", verbose=False):
     return obs
 
 
-def _peg_case(src, mode="exec", verbose=False):
+def _peg_case(src, mode="exec", verbose=False, py_version=None, gated=False):
     if "!" in src.replace("!=", ""):
         return None
     try:
         toks = kept_tokens(src)
     except BaseException:  # noqa: BLE001
         return None
-    obs = impl_parse_observation(src, mode, verbose)
+    obs = impl_parse_observation(src, mode, verbose, py_version)
     if obs["k"] in ("recursion", "tokerr"):
         return None
-    return (parse_request(load_ir(), toks, "file" if mode == "exec" else "eval", verbose=verbose), obs, src)
+    minor = effective_minor(py_version) if gated else None
+    return (parse_request(load_ir(), toks, "file" if mode == "exec" else "eval", verbose=verbose, minor=minor), obs, src if not gated else f"{src!r} py_version={py_version}")
 
 
-def peg_cases(srcs, mode="exec", verbose=False):
-    """(request, expected, source) for the first pass of every source (sources with macro triggers are skipped)."""
-    res = _pooled("_peg_case", [(s, mode, verbose) for s in srcs], timeout=60 if verbose else 30)
+def peg_cases(srcs, mode="exec", verbose=False, versions=None):
+    """(request, expected, source) for the first pass of every source (sources with macro triggers are skipped).
+    `versions`: run every source under each of these `py_version` options, the model with its gates resolved accordingly."""
+    if versions is None:
+        args = [(s, mode, verbose) for s in srcs]
+    else:
+        args = [(s, mode, verbose, v, True) for s in srcs for v in versions]
+    res = _pooled("_peg_case", args, timeout=60 if verbose else 30)
     return [tuple(r) for r in res if isinstance(r, (tuple, list))]
 
 
